@@ -105,6 +105,10 @@ def run(rep):
                         render.number_text(v, cfg["dec"], cfg["tho"], group=group))
     forms.replay(rep, items, "c08.gen")
     random_histories(rep, 60 if quick else 1200)
+    # unit conversions include those of user-defined families: their step codes are written in the code notation and must be read
+    # the same under every separator configuration, whenever the family was registered (the part is shared with C18)
+    from props import c18
+    c18.families_under_separators(rep)
 
 
 def random_histories(rep, nhist):
